@@ -429,7 +429,17 @@ func CustomCase(r *rand.Rand, name string, o CustomOpts) *Case {
 							Spec: &vref.MethodSpec{Name: mname, Roles: []string{"source"}, HasErr: true}})
 					}
 				} else {
-					fmt.Fprintf(&funcsLocal, "func %s(v int) string { return fmt.Sprintf(\"%s:%%d\", v) }\n\n", fn, fn)
+					// the function is declared for both underlying types, or for one underlying and one named type
+					switch r.Intn(3) {
+					case 0:
+						fmt.Fprintf(&funcsLocal, "func %s(v int) string { return fmt.Sprintf(\"%s:%%d\", v) }\n\n", fn, fn)
+					case 1:
+						fmt.Fprintf(&funcsLocal, "func %s(v int) ty.TID%d { return ty.TID%d(fmt.Sprintf(\"%s:%%d\", v)) }\n\n", fn, i, i, fn)
+						kindsUsed["underlyingSrcOnly"] = true
+					default:
+						fmt.Fprintf(&funcsLocal, "func %s(v ty.SID%d) string { return fmt.Sprintf(\"%s:%%d\", int(v)) }\n\n", fn, i, fn)
+						kindsUsed["underlyingTgtOnly"] = true
+					}
 				}
 				convLines = append(convLines, "extend "+fn)
 				specFuncs = append(specFuncs, &vref.FuncSpec{Key: "fn:" + fn, Kind: "extend", Roles: []string{"source"}})
